@@ -27,8 +27,10 @@ namespace SL.Bm25
 
 /-! ## small helpers -/
 
-def fmax (a b : Float) : Float := if a < b then b else a
-def fmin (a b : Float) : Float := if b < a then b else a
+/-- `f32::max` / `f32::min`: the other operand when one is NaN (matters: `ln` of a negative
+quotient when a segment has fewer live documents than `df`) -/
+def fmax (a b : Float) : Float := if a.isNaN then b else if b.isNaN then a else if a < b then b else a
+def fmin (a b : Float) : Float := if a.isNaN then b else if b.isNaN then a else if b < a then b else a
 def fabs (a : Float) : Float := if a < 0.0 then 0.0 - a else a
 
 def lookupD {α : Type} (k : String) (l : List (String × α)) (d : α) : α :=
